@@ -78,7 +78,7 @@ def extract(repo=None, config='default', debug_assertions=True):
     repo = repo or REPO
     os.makedirs(CACHE, exist_ok=True)
     ensure_driver()
-    key = '%s-%s-%s' % (tree_hash(repo), config, 'da' if debug_assertions else 'nda')
+    key = '%s-%s-%s-v2' % (tree_hash(repo), config, 'da' if debug_assertions else 'nda')
     out = os.path.join(CACHE, 'facts-%s.json' % key)
     lock = open(os.path.join(CACHE, 'lock-%s' % key), 'w')
     fcntl.flock(lock, fcntl.LOCK_EX)
@@ -89,7 +89,7 @@ def extract(repo=None, config='default', debug_assertions=True):
         try:
             env = dict(os.environ)
             env['LD_LIBRARY_PATH'] = sysroot_lib() + ':' + env.get('LD_LIBRARY_PATH', '')
-            flags = '-Zmir-opt-level=0 -Awarnings'
+            flags = '-Zmir-opt-level=0 -Zub-checks=no -Awarnings'
             if not debug_assertions:
                 flags += ' -Cdebug-assertions=off'
             env['RUSTFLAGS'] = flags
@@ -131,7 +131,7 @@ def compile_control(src, crate='acverif_control'):
         env['ACVERIF_OUT'] = out
         env['ACVERIF_CRATE'] = crate
         r = subprocess.run([DRIVER, 'rustc', src, '--crate-type', 'lib', '--crate-name', crate, '--edition=2021',
-                            '--emit=metadata', '-Zmir-opt-level=0', '-Awarnings', '--out-dir', tmp],
+                            '--emit=metadata', '-Zmir-opt-level=0', '-Zub-checks=no', '-Awarnings', '--out-dir', tmp],
                            env=env, capture_output=True, text=True)
         if r.returncode != 0 or not os.path.exists(out):
             sys.stderr.write(r.stderr[-4000:])
